@@ -127,7 +127,7 @@ def oracle(parts, outcome, obs):
     return None
 
 CLAIM = {
-    "text": "Theorem C06_field (Coq, closed under the global context): for every nibble vector long enough to hold bits 20-32 the model of squawk() returns the octal digits A B C D of the identity field read with the standard's bit numbering, whatever the other bits, and cannot panic. The bit-position table is regenerated from ma_code.rs on every run so a changed table is re-judged by the kernel. The model is tied to the code by running both on every one of the 8192 codes in DF5 and DF21 (first/later frames, +/-U, +/-R, non-carrier frames interleaved).",
+    "text": "Theorem C06_field (Coq, closed under the global context): for every nibble vector long enough to hold bits 20-32 the model of squawk() returns the octal digits A B C D of the identity field read with the standard's bit numbering, whatever the other bits, and cannot panic. The bit-position table is regenerated from ma_code.rs on every run so a changed table is re-judged by the kernel. The model is tied to the code by running both on every one of the 8192 codes in DF5 and DF21 (first/later frames, +/-U, +/-R, non-carrier frames interleaved). A DF5 reply that creates the row delivers its code (C06_new_row).",
     "note": "Trusted: Coq kernel + vm_compute; the table translator; extraction (ExtrOcamlBasic); the Rust harness and comparer. The row-level statements (which frames may change the squawk) are covered by the correspondence and the oracle, and by theorems as they are added to Properties/C06.v.",
     "technique": "Coq proof (reflection sweep + extensionality) over a hand model; regenerated table; differential correspondence with extracted model",
 }
